@@ -70,10 +70,10 @@ def run(ctx):
     e2e = [(d, k, n) for d in range(1, 7) for k in range(1, d + 1) for n in ([0, 3] if not thorough else [0, 1, 3, 10, 37])]
     if not thorough:
         e2e = [c for c in e2e if c[1] in (1, c[0])] + [(6, 3, 0), (5, 4, 3)]
-    forms = ["same_module", "from_import", "import_dotted"]
+    forms = ["same_module", "from_import", "import_dotted", "local_import"]
     with ws.Workspace("c14") as w:
         for (depth, k, n_other) in e2e:
-            form = forms[(depth + k + n_other) % 3]
+            form = forms[(depth + k + n_other) % 4]
             root = w.unique("c14p")
             pk = [root] + ["s%d" % i for i in range(2, depth + 1)]     # package directories
             modname = ".".join(pk + ["m"])
@@ -95,6 +95,10 @@ def run(ctx):
                     return ("import dds\nimport %s as ext\n\n%s\ndef top():\n    return %s() + ext.e() + str(%s)\n" % (extname, helper_src(v), hn, vn))
                 if form == "from_import":
                     return ("import dds\nimport %s as ext\nfrom %s import %s, %s\n\ndef top():\n    return %s() + ext.e() + str(%s)\n" % (extname, helpmod, hn, vn, hn, vn))
+                if form == "local_import":
+                    # the accepted helper module is imported inside the function only (its name is not a global of the module)
+                    return ("import dds\nimport %s as ext\n\ndef top():\n    import %s\n    return %s.%s() + ext.e() + str(%s.%s)\n" % (
+                        extname, helpmod, helpmod, hn, helpmod, vn))
                 return ("import dds\nimport %s as ext\nimport %s\n\ndef top():\n    return %s.%s() + ext.e() + str(%s.%s)\n" % (extname, helpmod, helpmod, hn, helpmod, vn))
             # accept exactly: prefix of depth k (+ n_other unrelated packages)
             for p in list(_accepted_packages):
